@@ -116,7 +116,8 @@ theorem setter_keeps (w : Text) (hw : Matches G.reference w) (op : C04.SetOp) (h
 
 /-- `remove_dot_segments` never panics, keeps validity and the scheme -/
 theorem rds_total (w : Text) (hw : Matches G.reference w) :
-    ∃ t, Ref.remove_dot_segments w = some t ∧ Matches G.reference t ∧ (split t).scheme = (split w).scheme := by
+    ∃ t, Ref.remove_dot_segments w = some t ∧ Matches G.reference t ∧ (split t).scheme = (split w).scheme ∧
+      split t = { split w with path := (split t).path } := by
   obtain ⟨h1, e1, _, _⟩ := path_session_valid G ok okp w hw [.norm] (by intro op hop; simp at hop; subst hop; trivial)
   have en : (Ref.path_mut w).normalize = some h1 := by
     simp only [C10.pathRun, C10.pathStep] at e1
@@ -125,32 +126,33 @@ theorem rds_total (w : Text) (hw : Matches G.reference w) :
     | some x => rw [hp] at e1; simp at e1; rw [e1]
   have tail : ∀ o : Bool, ∃ t, (if (o && !Path.is_empty h1.view) = true then (h1.push []).map (·.buffer)
       else if (h1.view == [cSlash, cDot, cSlash] || h1.view == [cDot, cSlash]) = true then (h1.clear).map (·.buffer)
-      else some h1.buffer) = some t ∧ Matches G.reference t ∧ (split t).scheme = (split w).scheme := by
+      else some h1.buffer) = some t ∧ Matches G.reference t ∧ (split t).scheme = (split w).scheme ∧
+        split t = { split w with path := (split t).path } := by
     intro o
     split
-    · obtain ⟨h2, e2, v2, s2⟩ := path_session_valid G ok okp w hw [.norm, .push []]
+    · obtain ⟨h2, e2, v2, s2, _⟩ := path_session_valid G ok okp w hw [.norm, .push []]
         (by intro op hop; simp at hop; rcases hop with rfl | rfl <;> first | trivial | exact okp.seg_nil)
       have ep : h1.push [] = some h2 := by
         simp only [C10.pathRun, C10.pathStep, en] at e2
         cases hp : h1.push [] with
         | none => rw [hp] at e2; cases e2
         | some x => rw [hp] at e2; simp at e2; rw [e2]
-      exact ⟨h2.buffer, by simp [ep], v2, by rw [s2]⟩
+      exact ⟨h2.buffer, by simp [ep], v2, by rw [s2], by rw [s2]⟩
     · split
-      · obtain ⟨h2, e2, v2, s2⟩ := path_session_valid G ok okp w hw [.norm, .clear]
+      · obtain ⟨h2, e2, v2, s2, _⟩ := path_session_valid G ok okp w hw [.norm, .clear]
           (by intro op hop; simp at hop; rcases hop with rfl | rfl <;> trivial)
         have ep : h1.clear = some h2 := by
           simp only [C10.pathRun, C10.pathStep, en] at e2
           cases hp : h1.clear with
           | none => rw [hp] at e2; cases e2
           | some x => rw [hp] at e2; simp at e2; rw [e2]
-        exact ⟨h2.buffer, by simp [ep], v2, by rw [s2]⟩
-      · obtain ⟨h2, e2, v2, s2⟩ := path_session_valid G ok okp w hw [.norm] (by intro op hop; simp at hop; subst hop; trivial)
+        exact ⟨h2.buffer, by simp [ep], v2, by rw [s2], by rw [s2]⟩
+      · obtain ⟨h2, e2, v2, s2, _⟩ := path_session_valid G ok okp w hw [.norm] (by intro op hop; simp at hop; subst hop; trivial)
         have : h2 = h1 := by
           simp only [C10.pathRun, C10.pathStep, en] at e2
           simpa using e2.symm
         subst this
-        exact ⟨h2.buffer, rfl, v2, by rw [s2]⟩
+        exact ⟨h2.buffer, rfl, v2, by rw [s2], by rw [s2]⟩
   unfold Ref.remove_dot_segments
   simp only [Option.bind_eq_bind, en, Option.bind_some]
   exact tail _
@@ -295,7 +297,7 @@ theorem resolve_total (base r : Text) (hb : Matches G.full base) (hr : Matches G
   by_cases hs : (split r).scheme.isSome = true
   · -- the reference has a scheme
     simp only [hs, if_true]
-    obtain ⟨t, e, v, sc⟩ := rds_total G ok okp r hr
+    obtain ⟨t, e, v, sc, _⟩ := rds_total G ok okp r hr
     exact ⟨t, e, fullV_of G ok t v (by rw [sc]; exact hs)⟩
   · have hs' : (split r).scheme.isSome = false := by simpa using hs
     simp only [hs', Bool.false_eq_true, if_false]
@@ -306,7 +308,7 @@ theorem resolve_total (base r : Text) (hb : Matches G.full base) (hr : Matches G
     simp only [Option.bind_eq_bind, e1, Option.bind_some]
     by_cases ha : (split r).authority.isSome = true
     · simp only [ha, if_true]
-      obtain ⟨t, e, v, sc⟩ := rds_total G ok okp b1 v1
+      obtain ⟨t, e, v, sc, _⟩ := rds_total G ok okp b1 v1
       exact ⟨t, e, fullV_of G ok t v (by rw [sc]; exact s1)⟩
     · have ha' : (split r).authority.isSome = false := by simpa using ha
       simp only [ha', Bool.false_eq_true, if_false]
@@ -330,7 +332,7 @@ theorem resolve_total (base r : Text) (hb : Matches G.full base) (hr : Matches G
         simp only [hemp', Bool.false_eq_true, if_false]
         by_cases habs : Path.is_absolute (Ref.path b1) = true
         · simp only [habs, if_true, e2, Option.bind_some]
-          obtain ⟨t, e, v, sc⟩ := rds_total G ok okp b2 v2
+          obtain ⟨t, e, v, sc, _⟩ := rds_total G ok okp b2 v2
           exact ⟨t, e, fullV_of G ok t v (by rw [sc]; exact s2)⟩
         · have habs' : Path.is_absolute (Ref.path b1) = false := by simpa using habs
           simp only [habs', Bool.false_eq_true, if_false, e2, Option.bind_some]
